@@ -179,6 +179,17 @@ CHECKS = {
             "which 2**table[b]*4^w is compared.",
             "Trusted: TLC; 1e-9 relative tolerance; this sandbox's numba/LLVM build only.",
             "DESIGN.md §5 C11"),
+    "C12": (["FimoOps", "FimoScan", "FimoScan_Trace"],
+            "declarative TLA+ definition of the FIMO hit set (FimoOps) model-checked with TLC on the exhaustive small scope "
+            "(MirrorLaw, EveryWindow, FieldsOK, DP = enumeration); every case replayed into fimo() in the exact-arithmetic lane; "
+            "random scans validated against FimoScan_Trace",
+            "TLC enumerates every exact-lane motif x every short sequence x thresholds with the hit set defined window by window "
+            "(every start 0..L-w, both strands, score, tail count) and checks the reverse-complement mirror law; the implementation "
+            "must report exactly these hits with correct fields, identically for tensor/FASTA input, dim=0/1, return_counts and 1, 2 "
+            "and all threads; larger planted/random scans are decided by the trace specification.",
+            "Trusted: TLC; exact lane (log-odds integers, eps=0, non-tie thresholds) so float comparisons inside fimo are exact; "
+            "p-values compared as integer tail counts.",
+            "DESIGN.md §5 C12"),
 }
 
 ALL = ["C%02d" % i for i in range(1, 21)]
